@@ -85,7 +85,7 @@ type branchShape struct {
 
 func eqBranchShape(p *Prog, f *ssa.Function, typ string) branchShape {
 	bs := branchShape{}
-	en := evalNode{typ, "", "var1", "var2"}
+	en := operandFields(p, evalNode{typ, "", "", ""})
 	var eq *ssa.Call
 	for _, b := range f.Blocks {
 		for _, in := range b.Instrs {
